@@ -195,6 +195,7 @@ def annotate(body):
                 d = json.loads(line)
                 tok = d.get("txt", "").split()
                 d["cmd0"] = tok[0] if tok else ""
+                d["hold"] = 1 if (tok and tok[0] == "go" and ("infinite" in tok[1:] or "ponder" in tok[1:])) else 0
                 line = json.dumps(d)
             except Exception:
                 pass
